@@ -5,13 +5,18 @@
   independently written modules.
 -/
 import GenM.Quad
+import GenM.Ctrl
+import GenM.RefP
 import Props.C13
+import Props.C14
+import Props.C15
+import Props.C16
 import Mathlib.Tactic.Ring
 import Mathlib.Tactic.Linarith
 import Mathlib.Analysis.SpecialFunctions.Trigonometric.Basic
 
-set_option maxHeartbeats 2000000
-open Gen
+set_option maxHeartbeats 4000000
+open Gen Rot Triad
 
 namespace C17
 
@@ -101,5 +106,106 @@ theorem geometry_hypotheses_satisfiable :
   · rw [Real.sin_pi_div_four]
   · rw [Real.cos_neg, e, Real.cos_pi_sub, Real.cos_pi_div_four]
   · rw [Real.sin_neg, e, Real.sin_pi_sub, Real.sin_pi_div_four]
+
+/-! ## the commanded hover is a fixed point of every stage of the cascade -/
+
+/-- stage 1 (position controller): at zero position / velocity error, zero feed-forward acceleration and an empty height
+    integrator the demanded force is `trim` straight up; the thrust command is `trim` and the set-point rotation is the pure
+    yaw rotation by the commanded heading -/
+theorem hover_position_control (trim : ℝ) (pt vt : Fin 3 → ℝ) (qc : Fin 4 → ℝ) (dt : ℝ)
+    (htrim : (1152921504606847:ℝ) * 2 ^ (-60:ℤ) < trim) :
+    rdd2.position_control_p.T_vec trim pt vt ![0, 0, 0] qc pt vt 0 dt = ![0, 0, trim]
+    ∧ rdd2.position_control_p.nT trim pt vt ![0, 0, 0] qc pt vt 0 dt = trim
+    ∧ rdd2.position_control_p.Rd_mat trim pt vt ![0, 0, 0] qc pt vt 0 dt
+        = !![Real.cos (rdd2.position_control_p.yt trim pt vt ![0, 0, 0] qc pt vt 0 dt), -Real.sin (rdd2.position_control_p.yt trim pt vt ![0, 0, 0] qc pt vt 0 dt), 0;
+             Real.sin (rdd2.position_control_p.yt trim pt vt ![0, 0, 0] qc pt vt 0 dt), Real.cos (rdd2.position_control_p.yt trim pt vt ![0, 0, 0] qc pt vt 0 dt), 0;
+             0, 0, 1] := by
+  have hP : rdd2.position_control_p.P_vec trim pt vt ![0, 0, 0] qc pt vt 0 dt = ![0, 0, 0] := by
+    funext i; fin_cases i <;> simp [cas_defs, cas_real]
+  have hpos : (0:ℝ) < trim := lt_trans (by norm_num) htrim
+  have hT : rdd2.position_control_p.T_vec trim pt vt ![0, 0, 0] qc pt vt 0 dt = ![0, 0, trim] := by
+    obtain ⟨h0, h1, h2⟩ := C15.position_feedback_id trim pt vt ![0, 0, 0] qc pt vt 0 dt (by rw [hP]; simp)
+    funext i; fin_cases i
+    · simpa [hP] using h0
+    · simpa [hP] using h1
+    · simpa [hP] using h2
+  have hs : Real.sqrt (0 * 0 + 0 * 0 + trim * trim) = trim := by
+    rw [zero_mul, zero_add, zero_add]; exact Real.sqrt_mul_self hpos.le
+  obtain ⟨_, _, _, hcol, hn⟩ := C14.position_control_setpoint trim pt vt ![0, 0, 0] qc pt vt 0 dt
+  refine ⟨hT, ?_, ?_⟩
+  · rw [hn, hT]; simpa using hs
+  · rw [C14.position_control_frame, C14.position_control_yB, hT]
+    have hz : zAxis 0 0 trim = ![0, 0, 1] := by
+      unfold zAxis; rw [hs, if_pos htrim]; simp [div_self (ne_of_gt hpos)]
+    simp only [Matrix.cons_val_zero, Matrix.cons_val_one, Matrix.cons_val_two, Matrix.head_cons, Matrix.tail_cons]
+    rw [hz]
+    simp only [Matrix.cons_val_zero, Matrix.cons_val_one, Matrix.cons_val_two, Matrix.head_cons, Matrix.tail_cons]
+    rw [yAxis_up _ _ (by rw [add_comm]; exact Real.sin_sq_add_cos_sq _)]
+    ext i j; fin_cases i <;> fin_cases j <;> simp [frame]
+
+/-- stage 3 (rate controller): zero rate error with empty integrator and derivative filter commands zero moment -/
+theorem hover_rate_control (kp ki kd i_max om : Fin 3 → ℝ) (f dt : ℝ) (hi : ∀ i, 0 ≤ i_max i) :
+    rdd2.attitude_rate_control.M_vec kp ki kd f i_max om om ![0, 0, 0] ![0, 0, 0] ![0, 0, 0] dt = ![0, 0, 0] := by
+  have h0 := hi 0; have h1 := hi 1; have h2 := hi 2
+  funext i; fin_cases i <;> simp [cas_defs, cas_real] <;> (split_ifs <;> first | rfl | linarith | simp)
+
+/-- stage 4 (control allocation): a pure thrust demand W within the collective range and zero moment is split equally:
+    every motor force is W/4 and every motor speed is √(W/(4 Ct)) -/
+theorem hover_allocation (F l Cm Ct W : ℝ) (hW0 : 0 ≤ W) (hW1 : W ≤ 4 * F) (hCt : 0 < Ct) (hl : 0 ≤ l) :
+    rdd2.control_allocation.Fp_sum_0 F l Cm Ct W ![0, 0, 0] = W / 4 ∧ rdd2.control_allocation.Fp_sum_1 F l Cm Ct W ![0, 0, 0] = W / 4
+    ∧ rdd2.control_allocation.Fp_sum_2 F l Cm Ct W ![0, 0, 0] = W / 4 ∧ rdd2.control_allocation.Fp_sum_3 F l Cm Ct W ![0, 0, 0] = W / 4
+    ∧ rdd2.control_allocation.omega_0 F l Cm Ct W ![0, 0, 0] = Real.sqrt (W / 4 / Ct) ∧ rdd2.control_allocation.omega_1 F l Cm Ct W ![0, 0, 0] = Real.sqrt (W / 4 / Ct)
+    ∧ rdd2.control_allocation.omega_2 F l Cm Ct W ![0, 0, 0] = Real.sqrt (W / 4 / Ct) ∧ rdd2.control_allocation.omega_3 F l Cm Ct W ![0, 0, 0] = Real.sqrt (W / 4 / Ct) := by
+  have hF : 0 ≤ F := by linarith
+  obtain ⟨t0, t1, t2, t3⟩ := C13.F_thrust_spec F l Cm Ct W ![0, 0, 0]
+  have ht : rdd2.control_allocation.F_thrust_0 F l Cm Ct W ![0, 0, 0] = W / 4 := by
+    rw [t0, if_neg (not_lt.mpr hW1), if_pos (not_lt.mpr hW0)]
+  have hm : rdd2.control_allocation.F_moment_0 F l Cm Ct W ![0, 0, 0] = 0 ∧ rdd2.control_allocation.F_moment_1 F l Cm Ct W ![0, 0, 0] = 0
+      ∧ rdd2.control_allocation.F_moment_2 F l Cm Ct W ![0, 0, 0] = 0 ∧ rdd2.control_allocation.F_moment_3 F l Cm Ct W ![0, 0, 0] = 0 := by
+    have hpos : 0 ≤ l * (4 * F) / 2 := by positivity
+    refine ⟨?_, ?_, ?_, ?_⟩ <;> simp [cas_defs, cas_real] <;>
+      (split_ifs <;> first | simp | (exfalso; linarith))
+  obtain ⟨m0, m1, m2, m3⟩ := hm
+  have hq : 0 ≤ W / 4 ∧ W / 4 ≤ F := ⟨by positivity, by linarith⟩
+  have f0 := C13.feasible_0 F l Cm Ct W ![0, 0, 0] (by rw [m0, ht, zero_add]; exact hq) (by rw [m1, t1, ht, zero_add]; exact hq)
+    (by rw [m2, t2, ht, zero_add]; exact hq) (by rw [m3, t3, ht, zero_add]; exact hq)
+  have f1 := C13.feasible_1 F l Cm Ct W ![0, 0, 0] (by rw [m0, ht, zero_add]; exact hq) (by rw [m1, t1, ht, zero_add]; exact hq)
+    (by rw [m2, t2, ht, zero_add]; exact hq) (by rw [m3, t3, ht, zero_add]; exact hq)
+  have f2 := C13.feasible_2 F l Cm Ct W ![0, 0, 0] (by rw [m0, ht, zero_add]; exact hq) (by rw [m1, t1, ht, zero_add]; exact hq)
+    (by rw [m2, t2, ht, zero_add]; exact hq) (by rw [m3, t3, ht, zero_add]; exact hq)
+  have f3 := C13.feasible_3 F l Cm Ct W ![0, 0, 0] (by rw [m0, ht, zero_add]; exact hq) (by rw [m1, t1, ht, zero_add]; exact hq)
+    (by rw [m2, t2, ht, zero_add]; exact hq) (by rw [m3, t3, ht, zero_add]; exact hq)
+  rw [m0, ht, zero_add] at f0; rw [m1, t1, ht, zero_add] at f1; rw [m2, t2, ht, zero_add] at f2; rw [m3, t3, ht, zero_add] at f3
+  refine ⟨f0, f1, f2, f3, ?_, ?_, ?_, ?_⟩
+  · rw [(C13.omega_spec_0 F l Cm Ct W ![0, 0, 0] hF hCt).1, f0]
+  · rw [(C13.omega_spec_1 F l Cm Ct W ![0, 0, 0] hF hCt).1, f1]
+  · rw [(C13.omega_spec_2 F l Cm Ct W ![0, 0, 0] hF hCt).1, f2]
+  · rw [(C13.omega_spec_3 F l Cm Ct W ![0, 0, 0] hF hCt).1, f3]
+
+/-- stage 2 (attitude controller) is `C15.attitude_zero_same`: measured attitude = reference ⇒ zero rate command.
+
+    **composition at hover**: with the weight W = m·g demanded (what stage 1 returns for trim = W) and zero moment (stages 2, 3),
+    the allocator's motor speeds put the plant — level, at rest, above ground, rotors at those speeds and commanded to them —
+    exactly in equilibrium: every component of the state derivative is 0.  (Symmetric frame hypotheses as in C16.) -/
+theorem hover_cascade_equilibrium (x : Fin 17 → ℝ) (u : Fin 4 → ℝ) (p : Fin 39 → ℝ) (F l Cm : ℝ)
+    (hm : p 23 ≠ 0) (hJx : p 24 ≠ 0) (hJy : p 25 ≠ 0) (hJz : p 26 ≠ 0) (hCt : 0 < p 14)
+    (hW0 : 0 ≤ p 23 * p 22) (hW1 : p 23 * p 22 ≤ 4 * F) (hl : 0 ≤ l)
+    (habove : ¬ x 2 < 0) (hv : x 3 = 0 ∧ x 4 = 0 ∧ x 5 = 0) (hq : x 6 = 1 ∧ x 7 = 0 ∧ x 8 = 0 ∧ x 9 = 0)
+    (hw : x 10 = 0 ∧ x 11 = 0 ∧ x 12 = 0)
+    (hx0 : x 13 = rdd2.control_allocation.omega_0 F l Cm (p 14) (p 23 * p 22) ![0, 0, 0])
+    (hx1 : x 14 = rdd2.control_allocation.omega_1 F l Cm (p 14) (p 23 * p 22) ![0, 0, 0])
+    (hx2 : x 15 = rdd2.control_allocation.omega_2 F l Cm (p 14) (p 23 * p 22) ![0, 0, 0])
+    (hx3 : x 16 = rdd2.control_allocation.omega_3 F l Cm (p 14) (p 23 * p 22) ![0, 0, 0])
+    (hcmd : u 0 = x 13 ∧ u 1 = x 14 ∧ u 2 = x 15 ∧ u 3 = x 16)
+    (hsin : p 6 * Real.sin (p 10) + p 7 * Real.sin (p 11) + p 8 * Real.sin (p 12) + p 9 * Real.sin (p 13) = 0)
+    (hcos : p 6 * Real.cos (p 10) + p 7 * Real.cos (p 11) + p 8 * Real.cos (p 12) + p 9 * Real.cos (p 13) = 0)
+    (hdir : p 2 + p 3 + p 4 + p 5 = 0) :
+    ∀ i, C16.xdot x u p i = 0 := by
+  obtain ⟨_, _, _, _, w0, w1, w2, w3⟩ := hover_allocation F l Cm (p 14) (p 23 * p 22) hW0 hW1 hCt hl
+  have e0 : x 13 = Real.sqrt (p 23 * p 22 / 4 / p 14) := hx0.trans w0
+  refine C16.hover_equilibrium x u p hm hJx hJy hJz habove hv hq hw
+    ⟨(hx1.trans w1).trans e0.symm, (hx2.trans w2).trans e0.symm, (hx3.trans w3).trans e0.symm⟩ ?_ hcmd hsin hcos hdir
+  rw [e0, Real.mul_self_sqrt (by positivity)]
+  field_simp
 
 end C17
